@@ -28,6 +28,15 @@ import time
 from pathlib import Path
 
 VERIF = Path(__file__).resolve().parent.parent
+
+# exo's effect checks call z3 through its C API, which neither the per-operation SIGALRM of the searches nor a Python
+# deadline can interrupt (one Check_ReorderStmts query was observed to run for an hour).  A global per-query timeout
+# turns such a query into "unknown", which exo reports as an error and the searches count as a refusal.
+try:  # pragma: no cover
+    import z3 as _z3
+    _z3.set_param("timeout", int(os.environ.get("VERIF_Z3_TIMEOUT_MS", "20000")))
+except Exception:
+    pass
 REPO = Path(os.environ.get("EXO_REPO", "/repo"))
 COQ = VERIF / "coq"
 SCRATCH = VERIF / ".scratch"
